@@ -117,7 +117,7 @@ namespace {
     }
 
     std::string stmt(int d, bool top = false) {
-      const int k = int(rng.below(d <= 0 ? 3 : 16));
+      const int k = int(rng.below(d <= 0 ? 3 : 17));
       switch (k) {
       case 0:
         return expr(d) + ";";
@@ -182,6 +182,16 @@ namespace {
         return "for_each([1, 2], fun(x) { " + stmts(d - 1, 2) + "});";
       case 12:
         return "rec(" + std::to_string(rng.range(0, 3)) + ");";
+      case 16: {
+        // calls whose argument binding fails (a capture named like a parameter, a repeated parameter
+        // name): the error is raised while the callee's frame is being set up
+        const std::string q = name("q");
+        switch (rng.below(3)) {
+        case 0: return "try { var " + q + " = " + cb() + "; fun[" + q + "](" + q + ") { " + q + " }(2); } catch (e) { " + cb() + "; }";
+        case 1: return "try { dup_params(" + cb() + ", 2); } catch (e) { " + cb() + "; }";
+        default: return "var " + name("t") + " = 0; dup_params(1, " + cb() + ");";
+        }
+      }
       case 14:
         return ifdecl(d);
       case 15:
@@ -215,6 +225,7 @@ namespace {
     const int depth = int(rng.range(1, thorough ? 4 : 3));
     defs.push(J("def rec(n) { if (n <= 0) { return " + g.cb() + " }; return rec(n - 1) + 1 }"));
     defs.push(J("def return_early(a) { if (a > 0) { return a }; " + g.cb() + "; return 0 }"));
+    defs.push(J("def dup_params(a, a) { return a }"));
     const int nf = int(rng.range(0, 3));
     for (int i = 0; i < nf; ++i) {
       defs.push(J("def f" + std::to_string(i) + "(a) { " + g.stmts(depth - 1, 2) + "return a + " + g.cb() + " }"));
